@@ -90,4 +90,17 @@ CHECKS = {
             dict(pkg="./redis-shake/common", harness=["common"], test="^TestVerif_C11U$", shards=16, budget=dict(quick=90, thorough=600)),
         ],
     ),
+    "C12": dict(
+        level="exploration",
+        engine="seqx",
+        technique="bounded exhaustive enumeration of logical values, score bit patterns, compact encodings and (db,key,expiry,object) sequences, executed through the real encoder, parser and decoder and compared with the value they were built from",
+        text="EncodeDump->DecodeDump for every string of a boundary pool (integer-encoding limits, signs, leading zeros, spaces, 63/64/16383/16384 bytes) and "
+             "every list/set/hash/zset of size 0..3 over it, every (sign, exponent, 5 mantissas) float64 pattern as score; every compact encoding of the "
+             "catalogue (ziplist with all entry encodings, intset widths, zipmap incl. long items, quicklist, LZF, int strings) goes through the real "
+             "parser and DecodeDump and must equal the logical value the independent writer built it from; all (db,key,expiry,object) sequences up to "
+             "length 2 (3 over a reduced alphabet) are written with the file encoder and loaded back, footer verified; BinEntry<->ObjEntry.",
+        note="trusts rdbgen's notion of the logical value of each compact encoding (written from ziplist.c/intset.c/zipmap.c); sets are compared as multisets, everything else in order",
+        rule="case = one value / payload / record sequence, distinct by construction; non-trivial = every case (each compares a decoded value with the expected one)",
+        parts=[dict(pkg="./pkg/rdb", harness=["rdb"], test="^TestVerif_C12$", shards=16, budget=dict(quick=60, thorough=900))],
+    ),
 }
